@@ -701,6 +701,94 @@ func runWsOut(s *Stream) {
 	runtime.KeepAlive(c)
 }
 
+// ---------------------------------------------------------------- reconnecting destination
+
+func runDest(s *Stream) {
+	o := &Observed{}
+	s.Obs = o
+	h := newHost()
+	feed := "feed-" + s.Name
+	up := websocket.Upgrader{CheckOrigin: func(*http.Request) bool { return true }}
+	var mu sync.Mutex
+	var recv [][]byte
+	var conns []int
+	nconn := 0
+	last := time.Now()
+	connected := make(chan struct{}, 1024)
+	// how many messages each connection is allowed: from the stream's seed
+	cutRng := lib.NewRng(int64(s.Seed) + 17)
+	dest := httptest.NewServer(http.HandlerFunc(func(w http.ResponseWriter, r *http.Request) {
+		c, err := up.Upgrade(w, r, nil)
+		if err != nil {
+			return
+		}
+		mu.Lock()
+		nconn++
+		me := nconn
+		k := cutRng.Range(s.CutMin, s.CutMax)
+		mu.Unlock()
+		connected <- struct{}{}
+		for i := 0; i < k; i++ {
+			_, d, err := c.ReadMessage()
+			if err != nil {
+				c.Close()
+				return
+			}
+			mu.Lock()
+			recv = append(recv, d)
+			conns = append(conns, me)
+			last = time.Now()
+			mu.Unlock()
+		}
+		// end the session; whatever the host writes from now on is lost at the cut
+		if s.Abrupt {
+			c.UnderlyingConn().Close()
+			return
+		}
+		_ = c.WriteControl(websocket.CloseMessage, websocket.FormatCloseMessage(websocket.CloseNormalClosure, ""), time.Now().Add(time.Second))
+		c.SetReadDeadline(time.Now().Add(200 * time.Millisecond))
+		for {
+			if _, _, err := c.ReadMessage(); err != nil {
+				break
+			}
+		}
+		c.Close()
+	}))
+	defer dest.Close()
+	h.app.Websocket.Add <- rwc.Rule{ID: "d0", Stream: feed, Destination: "ws" + strings.TrimPrefix(dest.URL, "http") + "/in/" + feed}
+	select {
+	case <-connected:
+	case <-time.After(3 * time.Second):
+		o.Err = "the host did not connect to the destination within 3 s"
+		return
+	}
+	time.Sleep(3 * time.Millisecond)
+	h.barrier()
+	input := s.wsoutInput()
+	inj := &hub.Client{Hub: h.app.Hub.Hub, Name: "verif-inj", Topic: feed}
+	for k := 0; k < s.Count; k++ {
+		h.app.Hub.Broadcast <- hub.Message{Sender: *inj, Data: input[k*s.Blk : (k+1)*s.Blk], Type: websocket.BinaryMessage, Sent: time.Now()}
+		if k%8 == 7 {
+			time.Sleep(150 * time.Microsecond) // the feed keeps producing in small bursts; the destination path lags behind them
+		}
+	}
+	o.Posted = s.total()
+	start := time.Now()
+	for time.Since(start) < 2*time.Second {
+		mu.Lock()
+		quiet := time.Since(last) > 150*time.Millisecond
+		mu.Unlock()
+		if quiet {
+			break
+		}
+		time.Sleep(5 * time.Millisecond)
+	}
+	mu.Lock()
+	o.Frames = append([][]byte{}, recv...)
+	o.Conns = append([]int{}, conns...)
+	mu.Unlock()
+}
+
 func runStream(s *Stream) {
 	defer func() {
 		if r := recover(); r != nil && s.Obs != nil {
@@ -716,5 +804,7 @@ func runStream(s *Stream) {
 		runReverse(s)
 	case "wsout":
 		runWsOut(s)
+	case "dest":
+		runDest(s)
 	}
 }
